@@ -12,4 +12,7 @@ one() {
         *) tools/ingest_refactor.py $PWD/refactors/$name $name ;;
     esac
 }
-for n in $(ls refactors); do one $n 2>&1 | grep -v "^WARNING"; done
+for n in $(ls refactors); do
+    if grep -q obsolete_since refactors/$n/meta.json; then echo "$n OBSOLETE"; continue; fi
+    one $n 2>&1 | grep -v "^WARNING"
+done
